@@ -282,7 +282,13 @@ func checkStep(c *run.Ctx, cl *scn.Cluster, t uint32, cands []scn.Cand) *types.B
 				viol("failing-template-left-no-failure-event", "a call that must fail ("+survivors[i].Kind+") recorded no platform failure event")
 			}
 		}
+		// plain transfer = recipient without code, neither at the parent nor (created earlier in this block) in the state this prefix leaves
 		plainTransfer := tx.Type() == params.OrdinaryTx && tx.To() != nil && !hasCode(A, parent, *tx.To()) && vm.PrecompiledContracts[*tx.To()] == nil
+		if plainTransfer {
+			if code, err := A.BC.AccountManager().GetAccount(*tx.To()).GetCode(); err != nil || len(code) > 0 || A.BC.AccountManager().GetAccount(*tx.To()).GetSuicide() {
+				plainTransfer = false
+			}
+		}
 		switch {
 		case tx.Type() == params.BoxTx || rewardTouch:
 			// atomic group: only conservation judged above
